@@ -118,6 +118,11 @@ func generate(w *mon.W) {
 			}
 		}
 	}
+	// wide and deep typed expressions: N operands / nesting depth N
+	for _, tr := range wideTyped() {
+		c := &Case{X: tr.x, Pos: tr.pos, Seed: 4}
+		w.Do("w|"+tr.pos+"|"+Canon(tr.x), func(r *mon.R) { Check(c, r) })
+	}
 	rng := gen.RNG(w.Seed, "c01")
 	n := w.Pick(6_000, 300_000)
 	for i := 0; i < n && !w.Stopped(); i++ {
@@ -387,4 +392,62 @@ func freeJoinify(x *E, rng interface{ Intn(int) int }) *E {
 		c.Kids = append(c.Kids, freeJoinify(k, rng))
 	}
 	return &c
+}
+
+type posExpr struct {
+	x   *E
+	pos string
+}
+
+func wideTyped() []posExpr {
+	ints := []*E{Name("ia"), Name("ib"), Num("2"), &E{K: "name", Parts: []Ident{{Name: "i c", Quoted: true}}}, Num("7")}
+	strs := []*E{Name("sa"), Name("sb"), StrLit("A", false), StrLit("it's", true)}
+	bools := []*E{Name("ba"), Name("bb"), Bin(">", Name("ia"), Num("0")), Call("isnull", Name("sa"))}
+	var out []posExpr
+	for _, n := range gen.WideSizes {
+		if n > 129 {
+			continue
+		}
+		cat := Call("strcat")
+		in := In(Name("ia"))
+		for i := 0; i < n; i++ {
+			cat.Kids = append(cat.Kids, strs[i%len(strs)])
+			in.Kids = append(in.Kids, ints[(i+1)%len(ints)])
+		}
+		out = append(out, posExpr{cat, "extend"}, posExpr{in, "where"})
+		for _, op := range []string{"and", "or"} {
+			e := bools[0]
+			for i := 1; i <= n; i++ {
+				if i%3 == 0 {
+					e = Bin(op, bools[i%len(bools)], e) // right-nested now and then
+				} else {
+					e = Bin(op, e, bools[i%len(bools)])
+				}
+			}
+			out = append(out, posExpr{e, "where"})
+		}
+		for _, op := range []string{"+", "-", "*"} {
+			e := ints[0]
+			for i := 1; i <= n; i++ {
+				if i%4 == 0 {
+					e = Bin(op, ints[i%len(ints)], e)
+				} else {
+					e = Bin(op, e, ints[i%len(ints)])
+				}
+			}
+			out = append(out, posExpr{e, "extend"})
+		}
+		if n <= 65 {
+			e := Name("ia")
+			nn := Name("ba")
+			f := Name("ia")
+			for i := 0; i < n; i++ {
+				e = Un("-", e)
+				nn = Call("not", nn)
+				f = Call("iff", bools[i%len(bools)], f, ints[i%len(ints)])
+			}
+			out = append(out, posExpr{e, "extend"}, posExpr{nn, "where"}, posExpr{f, "extend"})
+		}
+	}
+	return out
 }
